@@ -11,8 +11,8 @@
   shared names, comparison filters, `Aggregate`) evaluated by `IR.eval` (what the code generator's
   `reduce` computes).  Both are tied to the Rust code on every run (`c06.build`, `c06.run`).
 
-  `C06_statement` (plan answer = Spec answer for every rule of the fragment) is refuted by `sum` over values whose
-  partial sums leave the i64 range (saturation per step) and by an aggregate that is not the last head term.  `C06_partial` is the strongest part proved for *all* plans of the builder's shape:
+  `C06_statement` (plan answer = Spec answer for every rule of the fragment) is refuted only by `sum` over values
+  whose partial sums leave the i64 range (saturation per step).  `C06_partial` is the strongest part proved for *all* plans of the builder's shape:
   the join tree below the `Aggregate` has duplicate-free rows over set-valued relations (each
   satisfying valuation appears exactly once), and the `Aggregate` node returns exactly one row per
   distinct group key with exact count / sum / min / max / count_distinct over those rows.
@@ -42,17 +42,14 @@ theorem C06_refuted : ¬ C06_statement := by
   revert this
   decide
 
-/-- second, independent refutation: an aggregate that is not the last head term. `a(count<Z>, X) <- e(X,Z)` over
-    `e = {(1,5),(1,6)}`: the Spec row is `(2,1)`, the plan yields `(1,2)` (the `Aggregate` node emits keys first and
-    nothing restores the head order; known finding `aggregate_not_last_in_head`). -/
-theorem C06_refuted_head_order : ¬ C06_statement := by
-  intro h
-  have := h [("e", [[.i64 1, .i64 5], [.i64 1, .i64 6]])]
-    { hrel := "a", hargs := [.agg .count "Z", .var "X"], body := [.pos { rel := "e", args := [.var "X", .var "Z"] }] }
-    (.aggregate (.scan "e" ["X", "Z"]) [0] [(.count, 1)] ["count_Z", "X"]) [[.i64 2, .i64 1]]
-    (by decide) (by decide) (by decide) [.i64 2, .i64 1]
-  revert this
-  decide
+/-- the head order is restored by the `Map` that `build_aggregation` now appends: for
+    `a(count<Z>, X) <- e(X,Z)` (the input that failed before the repair) plan answer = Spec answer. -/
+example :
+    let r : DL.Rule := { hrel := "a", hargs := [.agg .count "Z", .var "X"], body := [.pos { rel := "e", args := [.var "X", .var "Z"] }] }
+    let db : Db := [("e", [[.i64 1, .i64 5], [.i64 1, .i64 6]])]
+    IRBuild.buildRule r = some (.map (.aggregate (.scan "e" ["X", "Z"]) [0] [(.count, 1)] ["X", "count_Z"]) [1, 0] ["count_Z", "X"]) ∧
+    (IRBuild.buildRule r).map (answer db) = some [[.i64 2, .i64 1]] ∧
+    AggSpec.specAnswer db r = some [[.i64 2, .i64 1]] := by decide
 
 /-- well-formed values: what `f64::to_bits` can return (C31) -/
 def ValuesWF (rows : List Tuple) : Prop := ∀ t ∈ rows, ∀ v ∈ t, ILV.Props.C31.Value.WF v
